@@ -25,7 +25,8 @@ THEOREMS = {
     "C01": _t("C01", "FlooVerif.C01.holds_iff_spec", "FlooVerif.C01.matching_stable") +
            _t("C01U", "FlooVerif.C01U.sam_decodes_owner", "FlooVerif.C01U.overlap_rejected", "FlooVerif.C01U.rule_origin") +
            [("FlooVerif.checkNoOverlap_iff", "FlooVerif.Lemmas.RouteMapLemmas")],
-    "C02": _t("C02", "FlooVerif.C02.arrives_of_potential", "FlooVerif.C02.trace_nodup", "FlooVerif.C02.walk_fuel_mono"),
+    "C02": _t("C02", "FlooVerif.C02.arrives_of_potential", "FlooVerif.C02.trace_nodup", "FlooVerif.C02.walk_fuel_mono") +
+           _t("C02U", "FlooVerif.C02U.tables_deliver", "FlooVerif.C02U.next_is_closer", "FlooVerif.C02U.remaining_decreases"),
     "C03": _t("C03", "FlooVerif.C03.pack_unpack", "FlooVerif.C03.pack_lt", "FlooVerif.C03.port_fits"),
     "C04": _t("C04", "FlooVerif.C04.lockstep", "FlooVerif.C04.step_closer", "FlooVerif.C04.no_y_to_x_turn",
               "FlooVerif.C04.column_decision", "FlooVerif.C04.allowed_y_continuation", "FlooVerif.C04.dor_reaches"),
@@ -42,13 +43,16 @@ THEOREMS = {
     "C15": _t("C15", "FlooVerif.C15.out_independent_of_history", "FlooVerif.C15.mode_views", "FlooVerif.C15.full_files",
               "FlooVerif.C15.getOpt_perm"),
     "C09": _t("C09", "FlooVerif.C09.acyclic_of_rankValid", "FlooVerif.C09.acyclic_of_certOk", "FlooVerif.C09.no_rank_of_cycle") +
-           [("FlooVerif.acyclic_of_rank", "FlooVerif.Lemmas.Paths")],
+           [("FlooVerif.acyclic_of_rank", "FlooVerif.Lemmas.Paths")] +
+           _t("C09U", "FlooVerif.C09U.tree_acyclic", "FlooVerif.C09U.rank_step", "FlooVerif.C09U.noret_of_nodup",
+              "FlooVerif.C09U.turn_model_acyclic"),
     "C11": _t("C11", "FlooVerif.C11.hw_offers_bindings", "FlooVerif.C11.hw_offers_macros",
               "FlooVerif.C11.pkg_names_and_directions", "FlooVerif.C11.hwOffers_spec"),
     "C12": _t("C12", "FlooVerif.C12.balanced_sound", "FlooVerif.C12.unbalanced_close", "FlooVerif.C12.lit_fits_iff"),
     "C13": _t("C13", "FlooVerif.C13U.sam_count", "FlooVerif.C13U.cfg_num_sam_rules", "FlooVerif.C13U.router_counts"),
     "C14": _t("C14", "FlooVerif.C14.lower_bound_of_potValid", "FlooVerif.C14.route_is_shortest",
-              "FlooVerif.C14.not_shortest_of_shorter") + [("FlooVerif.potential_lower_bound", "FlooVerif.Lemmas.Paths")],
+              "FlooVerif.C14.not_shortest_of_shorter") + [("FlooVerif.potential_lower_bound", "FlooVerif.Lemmas.Paths")] +
+           _t("C02U", "FlooVerif.C02U.route_is_minimal", "FlooVerif.C02U.tables_deliver"),
     "C16": _t("C16", "FlooVerif.C16.trim_decode_eq", "FlooVerif.C16.trim_covers_iff", "FlooVerif.C16.trim_overlap_free",
               "FlooVerif.C16.trim_sizes", "FlooVerif.C16.trim_no_touching"),
     "C17": _t("C17", "FlooVerif.C17.mkRange_wf", "FlooVerif.C17.mkRange_based", "FlooVerif.C17.setIdx_spec",
